@@ -561,6 +561,7 @@ class Evaluator:
 
     def load(self, env: Env, n: ast.Subscript) -> Any:
         base = n.value
+        prefix: tuple = ()
         if isinstance(base, ast.Name):
             name = base.id
             bound = env.vars.get(name)
@@ -577,7 +578,11 @@ class Evaluator:
                 raise Unsupported(f"subscript of {name}", n)
             elif isinstance(bound, Poly):
                 at = bound.as_atom()
-                if at is not None and at[0] == "cell":
+                if at is not None and at[0] == "cell" and getattr(
+                        self, "compose_rows", False):
+                    # a row taken out of a matrix: m[i][j] is m[i, j]
+                    name, prefix = at[1], tuple(at[2])
+                elif at is not None and at[0] == "cell":
                     name = show_atom(at)      # element of a list of lists
                 elif at is None or at[0] != "var":
                     raise Unsupported(f"subscript of scalar {name}", n)
@@ -587,7 +592,7 @@ class Evaluator:
             name = ast.unparse(base)
         else:
             raise Unsupported("subscript base", n)
-        idx = self.index(env, n.slice)
+        idx = prefix + self.index(env, n.slice)
         k = (name, idx)
         if k in env.stores:
             return env.stores[k]
